@@ -295,6 +295,17 @@ func genC13(tier, out string, sum *Summary) {
 			}
 		}
 	}
+	// the key expression fails on the first, a middle or the last element: the error is the outcome
+	for _, af := range argFaultFamily() {
+		if af.doc != nil || strings.HasPrefix(af.fn, "sort") || strings.HasPrefix(af.fn, "max") || strings.HasPrefix(af.fn, "min") {
+			o := search(af.expr, af.doc)
+			sum.count("key-fault/" + o.Kind)
+			emit(af.expr, af.doc, o)
+			if af.want != "" && !(o.Kind == "err" && len(o.Cats) == 1 && o.Cats[0] == af.want) {
+				sum.direct("key-fault", af.expr, af.doc, "an argument fails with "+af.want+"; got "+describe(o))
+			}
+		}
+	}
 	sh.Flush()
 	sum.Cases = id
 	sum.Shards = sh.files
@@ -444,6 +455,23 @@ func genC16(tier, out string, sum *Summary) {
 			doc := map[string]any{"A😀é": json.Number("7")}
 			run(`"A😀é"`, doc, json.Number("7"), "unicode-escape")
 			run("`\"\\u0041\\ud83d\\ude00\\u00e9\"`", nil, "A😀é", "unicode-escape")
+		}
+	}
+	// every escape of the JSON string grammar, alone, as the first escape after plain text, after another escape and
+	// at the end, in quoted identifiers, hash keys and JSON string literals (the decoder has a branch per escape)
+	{
+		escs := []struct{ text, val string }{{`\"`, "\""}, {`\\`, "\\"}, {`\/`, "/"}, {`\b`, "\b"}, {`\f`, "\f"}, {`\n`, "\n"}, {`\r`, "\r"}, {`\t`, "\t"},
+			{`\u0041`, "A"}, {`\u00e9`, "é"}, {`\u20AC`, "€"}, {`\ud83d\ude00`, "😀"}, {`\uD83D\uDE00`, "😀"}, {`\u0000`, "\x00"}, {`\u007f`, "\x7f"}, {`\uffff`, "\uffff"}}
+		for i, e := range escs {
+			f := escs[(i+3)%len(escs)]
+			for _, form := range [][2]string{{e.text, e.val}, {"ab" + e.text, "ab" + e.val}, {e.text + "cd", e.val + "cd"}, {"x" + e.text + "y" + f.text + "z", "x" + e.val + "y" + f.val + "z"},
+				{f.text + e.text, f.val + e.val}, {e.text + e.text, e.val + e.val}, {"é" + e.text + "€", "é" + e.val + "€"}} {
+				q := "\"" + form[0] + "\""
+				run(q, map[string]any{form[1]: json.Number("1"), form[1] + "x": json.Number("2"), "x" + form[1]: json.Number("3")}, json.Number("1"), "every-escape")
+				run("{"+q+": `1`}", nil, map[string]any{form[1]: json.Number("1")}, "every-escape")
+				run("`"+q+"`", nil, form[1], "every-escape")
+				run("a."+q, map[string]any{"a": map[string]any{form[1]: json.Number("4")}}, json.Number("4"), "every-escape")
+			}
 		}
 	}
 	// numbers between backticks in every spelling, bare and padded with the white space JSON allows on either
